@@ -251,6 +251,13 @@ func c18(ctx *Ctx) (*Outcome, error) {
 				args = []string{"-p", "faulty"} // stdout mode
 				outFile = ""
 			}
+			switch k % 5 {
+			case 2:
+				// what cannot be generated cannot be generated as a model either
+				args = append(args, "--only-models")
+			case 4:
+				args = append(args, "--min-sized-ints", "--struct-name-from-title")
+			}
 			args = append(args, name)
 			inv := &cli.Inv{Files: append([]batch.File{{Path: name, Data: data}}, fk.files...), Args: args}
 			if outFile != "" {
